@@ -63,7 +63,7 @@ CHUNK_EXT = (
 )
 
 # Pre-compiled regular expressions for use elsewhere
-ONLY_HEXDIG_RE = re.compile(("^" + HEXDIG + "+$").encode("latin-1"))
+ONLY_HEXDIG_RE = re.compile(("^" + HEXDIG + r"+\Z").encode("latin-1"))
 ONLY_DIGIT_RE = re.compile(("^" + DIGIT + "+$").encode("latin-1"))
 HEADER_FIELD_RE = re.compile(
     (
@@ -72,4 +72,4 @@ HEADER_FIELD_RE = re.compile(
 )
 QUOTED_PAIR_RE = re.compile(QUOTED_PAIR)
 QUOTED_STRING_RE = re.compile(QUOTED_STRING)
-CHUNK_EXT_RE = re.compile(("^" + CHUNK_EXT + "$").encode("latin-1"))
+CHUNK_EXT_RE = re.compile(("^" + CHUNK_EXT + r"\Z").encode("latin-1"))
